@@ -47,7 +47,7 @@ WITNESSES = [
 def gen_case(rng, kind=None):
     modes = nc.rand_modes(rng)
     kind = kind or rng.choice(
-        ["mul", "mul", "fermi", "fermi", "assocL", "assocR", "sum", "adj", "pow", "mulsum", "whole", "whole"]
+        ["mul", "mul", "fermi", "fermi", "assocL", "assocR", "sum", "adj", "pow", "mulsum", "whole", "whole", "roundtrip"]
     )
     if kind == "fermi":
         # several fermionic modes, right factor with >= 2 operators (the order of the annihilation pass and
@@ -70,9 +70,16 @@ def gen_case(rng, kind=None):
         t = ["pow", nc.rand_sum(rng, modes, 2, 2), rng.choice([0, 2, 2, 3])]
     elif kind == "mulsum":
         t = ["mul", nc.rand_sum(rng, modes, 2, 2), nc.rand_sum(rng, modes, 2, 2)]
+    elif kind == "roundtrip":
+        # the model re-multiplies every node of the coefficient expression (each product linearises the binary
+        # number operators again), so keep at most one spin/fermion mode and small expressions
+        modes = sorted([rng.choice("BBL") for _ in range(rng.randint(0, 2))] + [rng.choice("BLSF")], key=nc.KIND_ORDER.index)
+        t = ["mul", nc.rand_sum(rng, modes, 2, 2), nc.rand_word(rng, modes, 2)] if rng.random() < 0.4 else nc.rand_sum(rng, modes, 2, 2)
     else:  # whole
         t = nc.rand_sum(rng, modes, 3, 4)
-    if rng.random() < 0.15 and kind != "whole":
+        if rng.random() < 0.3:
+            t = ["adj", t] if rng.random() < 0.5 else ["pow", nc.rand_sum(rng, modes, 2, 2), 2]
+    if rng.random() < 0.15 and kind not in ("whole", "roundtrip"):
         t = ["neg", t]
     grid = nc.rand_grid(rng, modes, 5)
     return dict(modes=modes, tree=t, grid=grid, kind=kind)
@@ -84,6 +91,10 @@ def run_impl(case):
     if case["kind"] == "whole":
         expr = nc.to_sympy(case["tree"], ops)
         x = nc.NumberOrderedForm.from_expr(expr, operators=ops)
+        exact = False
+    elif case["kind"] == "roundtrip":
+        x0 = nc.build_impl(case["tree"], ops)
+        x = nc.NumberOrderedForm.from_expr(x0.as_expr(), operators=ops)
         exact = False
     else:
         x = nc.build_impl(case["tree"], ops)
@@ -100,7 +111,34 @@ def _impl_worker(case):
         return dict(ok=False, err="%s: %s" % (type(e).__name__, str(e)[:300]))
 
 
+def coq_expr(t):
+    """tree -> PV.NOF.FromExpr.expr, the way sympy represents it (a - b = a + (-1)*b, -a = (-1)*a)"""
+    k = t[0]
+    if k == "op":
+        return "(EOp %d %s)" % (t[1], "true" if t[2] else "false")
+    if k == "num":
+        return "(ENum %d)" % t[1]
+    if k == "const":
+        re, im = nc.gconst(t)
+        return "(EConst %s)" % nc.cg(re, im)
+    if k == "neg":
+        return "(EMul (EConst (gopp g1)) %s)" % coq_expr(t[1])
+    if k == "adj":
+        return "(EDag %s)" % coq_expr(t[1])
+    if k == "pow":
+        return "(EPow %s %d)" % (coq_expr(t[1]), t[2])
+    if k == "sub":
+        return "(EAdd %s (EMul (EConst (gopp g1)) %s))" % (coq_expr(t[1]), coq_expr(t[2]))
+    return "(%s %s %s)" % ({"mul": "EMul", "add": "EAdd"}[k], coq_expr(t[1]), coq_expr(t[2]))
+
+
 def coq_case(case, obs, exact):
+    if case["kind"] == "whole":  # model of from_expr on the expression AST
+        return "check_fromexpr %s %s %s %s" % (
+            nc.coq_sig(case["modes"]), coq_expr(case["tree"]), nc.clist([nc.coq_occ(p) for p in case["grid"]]), nc.coq_obs(obs))
+    if case["kind"] == "roundtrip":  # from_expr(x.as_expr())
+        return "check_roundtrip %s %s %s %s" % (
+            nc.coq_sig(case["modes"]), nc.coq_tree(case["tree"]), nc.clist([nc.coq_occ(p) for p in case["grid"]]), nc.coq_obs(obs))
     return "check_tree %s %s %s %s %s" % (
         nc.coq_sig(case["modes"]),
         nc.coq_tree(case["tree"]),
